@@ -43,7 +43,9 @@ InstId string_to_inst_id(const char* s, size_t len) noexcept {
     return BaseInst::kIdNone;
   }
 
-  return InstNameUtils::find_instruction(s, len, InstDB::_inst_name_index_table, InstDB::_inst_name_string_table, InstDB::_inst_name_index);
+  // AArch64 instruction ids are grouped (general purpose first, then SIMD) and kept in families (stadd, staddl, staddb),
+  // so they are not ordered by name and the per-letter spans of `_inst_name_index` cover both groups.
+  return InstNameUtils::find_instruction_unordered(s, len, InstDB::_inst_name_index_table, InstDB::_inst_name_string_table, InstDB::_inst_name_index);
 }
 #endif // !ASMJIT_NO_TEXT
 
